@@ -119,6 +119,7 @@ type gen struct {
 }
 
 func newGen(r *h.Rand, ver kmip.ProtocolVersion, o Opts) *gen {
+	initHooks()
 	return &gen{r: r, ver: ver, o: o, attrs: append([]kmip.AttributeName{}, o.Attrs...), kinds: append([]int{}, o.TreeKinds...)}
 }
 
